@@ -158,6 +158,12 @@ impl ClientLoop {
         self.enabled
     }
 
+    /// verification hook: the transaction id the next request will carry
+    #[cfg(feature = "verif-hooks")]
+    pub(crate) fn set_next_tx_id(&mut self, value: u16) {
+        self.tx_id = TxId::new(value);
+    }
+
     async fn run_cmd(&mut self, cmd: Command, io: &mut PhysLayer) -> Result<(), SessionError> {
         match cmd {
             Command::Setting(setting) => {
